@@ -1,5 +1,6 @@
 import Witverif.Abi.Gen
 import Witverif.Abi.Validate
+import Witverif.Text.Heck
 /-
 The C backend's profile of the shared ABI generator (crates/c/src/lib.rs `impl Bindgen for
 FunctionBindgen`):
@@ -273,4 +274,16 @@ anonymous types were defined earlier: a shared root type has the complete helper
 def cFreesObserved (late : Bool) (p : Nat) (m : Spec.Mem) (t : Ty) (a : Nat) : List (Nat × Nat) :=
   if late && !isSharedAnon t then cFreesLate p m t a else cFrees p m t a
 
+/-! ### the destructor export of an exported resource (`type_resource`) -/
+
+/-- `format!("{module}#[dtor]{snake}")` with `snake = name.to_snake_case()` -/
+def cDtorExportName (module name : List Char) : List Char :=
+  module ++ "#[dtor]".toList ++ Witverif.Text.Heck.snake name
+
 end Witverif.Abi.CProfile
+
+namespace Witverif.Abi.CProfileSpec
+/-- legacy core export name of a resource destructor (`Resolve::wasm_export_name`,
+`WasmExport::ResourceDtor`): the resource's WIT name verbatim -/
+def dtorExportName (module name : List Char) : List Char := module ++ "#[dtor]".toList ++ name
+end Witverif.Abi.CProfileSpec
